@@ -9,7 +9,7 @@
   cross-check of the statements proved in `Props/C05.lean`.
   `forest specp <op> …` / `specpx`: the PAIR reading (`Model/FspecSpec3.lean`, `FspecSpec4.lean`), defined
   for every forest: the six basic calls, `unwrap`, `wrap`, `replace` (`specReplaceP`; `specpc` = 1 in
-  the corner where xot differs from it); `specpk` / `specpkx`: `replace` as xot does it (`specReplaceK`).
+  the corner `selfMergeReplace`, where xot differed from it until 609b613).
 -/
 import XotModel.Model.FspecSpec
 import XotModel.Model.FspecSpec2
@@ -124,7 +124,7 @@ def specPOf (s : FState) (ws : List String) : Option (Forest × Forest × Bool) 
       some (specDetachP n f, (f.detach n).1, false)
   -- the composite calls (`Model/FspecSpec4.lean`); `element_wrap` merges nothing: `specWrap` is its
   -- own pair reading.  `replace`: the reading the property demands; the third component tells
-  -- the corner `selfMergeReplace`, in which xot differs from it (`specpk` shows xot's reading)
+  -- the corner `selfMergeReplace`, in which xot differed from it until 609b613
   | ["unwrap", a] => do
       let n ← node a
       some (specUnwrapP n f, (f.elementUnwrap n).1, false)
@@ -134,16 +134,6 @@ def specPOf (s : FState) (ws : List String) : Option (Forest × Forest × Bool) 
   | ["replace", a, b] => do
       let o ← node a; let n ← node b
       some (specReplaceP o n f, (f.replace o n).1, selfMergeReplace f o n)
-  | _ => none
-
-/-- `replace` as xot does it (`specReplaceK`): equal to the model's result on every forest. -/
-def specKOf (s : FState) (ws : List String) : Option (Forest × Forest) :=
-  let node (w : String) : Option Nat := do s.handleOf (← w.toNat?)
-  let f := s.forest
-  match ws with
-  | ["replace", a, b] => do
-      let o ← node a; let n ← node b
-      some (specReplaceK o n f, (f.replace o n).1)
   | _ => none
 
 def handleFspec (s : FState) (ws : List String) : Option String :=
@@ -159,12 +149,6 @@ def handleFspec (s : FState) (ws : List String) : Option String :=
   | "specpc" :: rest => do
       let (_, _, corner) ← specPOf s rest
       some (if corner then "1" else "0")
-  | "specpk" :: rest => do
-      let (sp, _) ← specKOf s rest
-      some (contentDump s sp)
-  | "specpkx" :: rest => do
-      let (sp, md) ← specKOf s rest
-      some (if rawDump sp == rawDump md then "1" else "0")
   | "spec" :: rest => do
       let (sp, _) ← specOf s rest false
       some (contentDump s sp)
